@@ -92,6 +92,13 @@ def _case(draw):
             bad["auto_populated_fields"] = ["ipv4_id"]
         elif kind == "duplicate-selector":
             settings.append(copy.deepcopy(settings[0]))
+    # method settings entries that do not auto-populate anything (other settings of other methods), at any position
+    others = [(f, s, m) for f, s, m, _msg in unary + streaming if f"{f['package']}.{s['name']}.{m['name']}" not in {x["selector"] for x in settings}]
+    if kind in ("valid",) and others and draw(st.booleans()):
+        f, s, m = others[draw(st.integers(0, len(others) - 1))]
+        entry = {"selector": f"{f['package']}.{s['name']}.{m['name']}", "long_running": {"initial_poll_delay": "5s", "poll_delay_multiplier": 1.5,
+                                                                                      "max_poll_delay": "60s", "total_poll_timeout": "600s"}}
+        settings.insert(draw(st.integers(0, len(settings))), entry)
     t = draw(st.sampled_from(["grpc+rest", "grpc+rest", "grpc", "rest"]))
     host = next((s.get("host") for f in api["files"] for s in f.get("services", [])), "lib.acme.com")
     opts = {"params": ["autogen-snippets=False", f"transport={t}"], "snippets": False, "transport": t,
